@@ -63,8 +63,19 @@ def rows_spec(draw, tier, lo, hi, zero="some", units=None, maxn=None, sizes=None
     if as_object and unit in SCORE_UNITS:
         allow_zero = False  # no zero-length notes in a score part
     # pitch material
-    style = draw(st.sampled_from(["uniform", "scale", "scale", "narrow"]))
-    if style == "scale":
+    style = draw(st.sampled_from(["uniform", "scale", "scale", "narrow", "low-edge"]))
+    first_pitch = None
+    if style == "low-edge":
+        # the bottom of the range in a flat-side pentatonic context, opened by the note a semitone below the bottom pitch's
+        # class: the contexts in which ps13 gives the lowest pitch an extreme spelling (A0 as G##: morphetic pitch -1)
+        rel = draw(st.sampled_from([3, 3, 3, 3] + list(range(12))))
+        tonic = (lo + rel) % 12
+        pool = [p for p in range(lo, min(hi, lo + 37) + 1) if (p - tonic) % 12 in (0, 3, 5, 7, 10)] or [lo]
+        first_pitch = lo + ((tonic + 8 - lo) % 12)
+        if first_pitch > hi:
+            first_pitch = lo
+        pitch = st.one_of(st.just(lo), st.sampled_from(pool), st.sampled_from(pool), st.sampled_from(pool), st.sampled_from(pool))
+    elif style == "scale":
         tonic = draw(st.integers(0, 11))
         scale = draw(st.sampled_from(SCALES))
         pool = [p for p in range(lo, hi + 1) if (p - tonic) % 12 in scale]
@@ -103,6 +114,8 @@ def rows_spec(draw, tier, lo, hi, zero="some", units=None, maxn=None, sizes=None
     rows = draw(st.lists(row, min_size=n, max_size=n))
     order = draw(st.sampled_from(["any", "any", "onset-sorted"]))
     rows = [list(r) for r in rows]
+    if first_pitch is not None:
+        min(rows, key=lambda r: (r[0], r[2]))[2] = first_pitch
     if order == "onset-sorted":
         rows.sort(key=lambda r: (r[0], r[2]))
     return {
